@@ -95,7 +95,8 @@ def main():
                  ("two_solids", M.two_solids(), True)]
     if ctx.worker == "san":
         pool = pool[:2]
-    ks = [None, 1.3, 0.9 + 0.4j] if ctx.quick or ctx.worker else [None, 1.3, 0.9 + 0.4j, 1e-3, 3.0 + 0.1j, ("mod", 0.8), ("mod", 2.5)]
+    # (a purely imaginary wavenumber is forwarded by the Helmholtz constructors to the modified Helmholtz ones: its own code path)
+    ks = [None, 1.3, 0.9 + 0.4j, 1.1j] if ctx.quick or ctx.worker else [None, 1.3, 0.9 + 0.4j, 1.1j, 1e-3, 3.0 + 0.1j, ("mod", 0.8), ("mod", 2.5)]
     nopt = 3 if ctx.quick or ctx.worker else 10
     worst = {"W": 0.0, "E": 0.0, "W1": 0.0}
     for mname, mesh, closed in pool:
